@@ -195,9 +195,27 @@ static void fiber_event_wake_waiters(fiber_manager_t* manager,
   }
 }
 
+#if defined(__linux__)
+// returns the number of timer expirations since the last call. must be called
+// with sleep_spinlock held: expirations consumed from the timer but not yet
+// added to timer_trigger_count would make a concurrent fiber_sleep() compute
+// its wake time from a stale tick count and wake up early
+static uint64_t fiber_event_read_timer() {
+  uint64_t timer_count = 0;
+  if (fibershim_read(timer_fd, &timer_count, sizeof(timer_count)) !=
+      sizeof(timer_count)) {
+    return 0;
+  }
+  return timer_count;
+}
+#endif
+
 static void fiber_event_wake_sleepers(fiber_manager_t* manager,
                                       uint64_t trigger_count) {
   fiber_spinlock_lock(&sleep_spinlock);
+#if defined(__linux__)
+  trigger_count += fiber_event_read_timer();
+#endif
   timer_trigger_count += trigger_count;
 
   waiter_el_t* to_wake = NULL;
@@ -239,14 +257,7 @@ static int fiber_poll_events_internal(uint32_t seconds, uint32_t useconds) {
   for (i = 0; i < count; ++i) {
     const int the_fd = events[i].data.fd;
     if (the_fd == timer_fd) {
-      uint64_t timer_count = 0;
-      const int ret =
-          fibershim_read(timer_fd, &timer_count, sizeof(timer_count));
-      if (ret != sizeof(timer_count)) {
-        assert(errno == EWOULDBLOCK || errno == EAGAIN);
-        continue;
-      }
-      fiber_event_wake_sleepers(manager, timer_count);
+      fiber_event_wake_sleepers(manager, 0);
     } else {
       fd_wait_info_t* const info = &wait_info[the_fd];
       fiber_spinlock_lock(&info->spinlock);
@@ -386,6 +397,11 @@ int fiber_sleep(uint32_t seconds, uint32_t useconds) {
 
   fiber_spinlock_lock(&sleep_spinlock);
 
+#if defined(__linux__)
+  // account for timer expirations nobody has read yet: the wake time must be
+  // relative to now, not to the last time some thread polled for events
+  timer_trigger_count += fiber_event_read_timer();
+#endif
   const uint64_t wake_time = timer_trigger_count + sleep_ms;
   wake_info.wake_time = wake_time;
   waiter_insert(&sleepers, &wake_info);
